@@ -3,6 +3,8 @@ import MpfVerif.Lemmas.ShowEvents
 import MpfVerif.Lemmas.ShowExact
 import MpfVerif.Lemmas.ShowKey
 import MpfVerif.Lemmas.ShowKeyEvents
+import MpfVerif.Lemmas.ShowReplace
+import MpfVerif.Lemmas.ShowToken
 /-!
 # C17 — Shows run on schedule without drift and clean up after themselves
 
@@ -249,7 +251,7 @@ instance in the dict) **no** instance ever created under the key runs. -/
 theorem key_stopped_nothing_runs (ops : List KOp) (t : Nat) :
     ∀ y ∈ (ShowKey.run {} (ops ++ [.req (.stop t)])).1.insts, y.rs.stopped = true := by
   rw [run_append]
-  simp only [ShowKey.run, ShowKey.step, isReq, if_true]
+  simp only [ShowKey.run, ShowKey.step, reqStep, isReq, if_true]
   have hg := run_good ops {} trivial
   have hk := run_known ops {} (by intro y hy; simp at hy)
   generalize (ShowKey.run {} ops).1 = s1 at hg hk
@@ -275,6 +277,122 @@ theorem context_removed_all (ops : List KOp) : ∀ x ∈ (ShowKey.run {} ops).1.
   rcases hi.1 with h | ⟨id, w, ht, _⟩
   · rw [h]; simp
   · rw [ht]; simp
+
+/-! ### a repeated play: `ShowController.replace_or_advance_show` keeps, advances or replaces (`KOp.playc`)
+
+`playc cid …` is a play whose show-player entry has no `events_when_played` / `events_when_stopped` / `block_queue`: the show
+controller compares the new `ShowConfig` with the instance in the dict (`decision`: `keep` = `return old_instance`,
+`advance` = `old_instance.advance()`, `replace` = a new `RunningShow`, the old one stopped at once or in sync).  All
+theorems above quantify over op sequences that contain such plays. -/
+
+open MpfVerif.ShowKey in
+/-- **A show that still waits for its sync point is never started by a repeated play.**  For *every* state of a key
+whose newest instance `x` is waiting for its synchronised start (`pending`, not stopped) and for every repeated play
+(any config — the identical one included —, any start step, any instant): the decision is `replace`, never `keep` or
+`advance`; with `sync_ms` the request emits nothing at all and leaves `x` exactly as it was — same sync timer, same
+start time on the sync grid — below a new waiting instance that holds `x`'s deferred stop; without `sync_ms` `x` is
+stopped (its clean-up and `stopped` are all it emits).  In no case does `x` play a step or post `played` off the grid. -/
+theorem repeated_play_keeps_sync (s : KS) (x : Inst) (rest : List Inst) (h : s.insts = x :: rest)
+    (hp : x.rs.pending = true) (hs : x.rs.stopped = false)
+    (cid : Nat) (durs : List Nat) (num den : Nat) (loops : Option Nat) (start : Int) (running manual : Bool) (sync t : Nat) :
+    decision x cid num den loops manual sync start = .replace ∧
+    (sync ≠ 0 → ∃ y, (ShowKey.step s (.playc cid durs num den loops start running manual sync t)).1.insts = y :: x :: rest ∧
+        y.replaces = some rest.length ∧ y.rs.started = false ∧ y.rs.stopped = false ∧
+        (ShowKey.step s (.playc cid durs num den loops start running manual sync t)).2 = []) ∧
+    (∀ o ∈ (ShowKey.step s (.playc cid durs num den loops start running manual sync t)).2, o.1 = rest.length →
+        o.2 = Obs.clr ∨ o.2 = Obs.ev .stopped) := by
+  have hd := decision_pending x cid num den loops manual sync start hp
+  have hstep : ShowKey.step s (.playc cid durs num den loops start running manual sync t) =
+      playNew (some (cid, loops, sync)) s durs num den loops start running manual sync t := by
+    simp only [ShowKey.step, h, hd]
+  rw [hstep]
+  refine ⟨hd, ?_, ?_⟩
+  · intro hsync
+    have ff := fresh_sync durs num den loops start running manual sync t hsync
+    have fs := fresh_sync_silent durs num den loops start running manual sync t hsync
+    simp only [playNew, h, hs, hsync, ne_eq, not_false_eq_true, if_true, Bool.false_eq_true, if_false, fs]
+    exact ⟨_, rfl, rfl, ff.1, ff.2, rfl⟩
+  · intro o ho hk
+    by_cases hsync : sync ≠ 0
+    · have fs := fresh_sync_silent durs num den loops start running manual sync t hsync
+      simp only [playNew, h, hs, hsync, ne_eq, not_false_eq_true, if_true, Bool.false_eq_true, if_false, fs] at ho
+      simp [tag] at ho
+    · simp only [playNew, h, hs, hsync, Bool.false_eq_true, if_false] at ho
+      rcases List.mem_append.mp ho with h1 | h1
+      · exact stopFrom_head_obs x rest o h1 hk
+      · have := below_tag (x :: rest).length ((x :: rest).length + 1) (by omega) _ o h1
+        simp only [tag, List.mem_map] at h1
+        obtain ⟨b, _, rfl⟩ := h1
+        simp at hk
+
+open MpfVerif.ShowKey in
+/-- **A kept instance's schedule is unchanged.**  When `replace_or_advance_show` keeps the old instance (it runs the
+identical config and is *at* the requested start step) the request emits nothing and changes no instance of the key —
+timers, next step time, step index, loops all stay — and therefore every continuation (any requests, timer callbacks,
+further plays) produces exactly the trace and the instances it would have produced without the repeated play. -/
+theorem kept_instance_unchanged (s : KS) (x : Inst) (rest : List Inst) (h : s.insts = x :: rest)
+    (cid : Nat) (durs : List Nat) (num den : Nat) (loops : Option Nat) (start : Int) (running manual : Bool) (sync t : Nat)
+    (hd : decision x cid num den loops manual sync start = .keep) (ops : List KOp) :
+    (ShowKey.step s (.playc cid durs num den loops start running manual sync t)).1.insts = s.insts ∧
+    (ShowKey.step s (.playc cid durs num den loops start running manual sync t)).2 = [] ∧
+    (ShowKey.run (ShowKey.step s (.playc cid durs num den loops start running manual sync t)).1 ops).2 = (ShowKey.run s ops).2 ∧
+    (ShowKey.run (ShowKey.step s (.playc cid durs num den loops start running manual sync t)).1 ops).1.insts =
+      (ShowKey.run s ops).1.insts := by
+  have hstep : ShowKey.step s (.playc cid durs num den loops start running manual sync t) = ({ s with now := max s.now t }, []) := by
+    simp only [ShowKey.step, h, hd]
+  rw [hstep]
+  have := run_insts_congr ops { s with now := max s.now t } s rfl
+  exact ⟨rfl, rfl, this.2, this.1⟩
+
+open MpfVerif.ShowKey in
+/-- The `advance` shortcut is exactly an advance request for the key (so everything proved about requests holds for
+it), and it is taken — like `keep` — only for an instance that runs, has already played a step (it is not waiting for its
+sync point), runs the identical config (same config id = show, priority, tokens; same loops, sync_ms, and the *current*
+speed and manual_advance, which follow update requests) and is exactly one step before the requested start step; a
+different speed, different show tokens or any other difference in the config always replaces. -/
+theorem advance_is_advance_request (s : KS) (x : Inst) (rest : List Inst) (h : s.insts = x :: rest)
+    (cid : Nat) (durs : List Nat) (num den : Nat) (loops : Option Nat) (start : Int) (running manual : Bool) (sync t : Nat) :
+    (decision x cid num den loops manual sync start = .advance →
+      ShowKey.step s (.playc cid durs num den loops start running manual sync t) = ShowKey.step s (.req (.advance t))) ∧
+    (decision x cid num den loops manual sync start ≠ .replace →
+      x.rs.stopped = false ∧ x.rs.pending = false ∧ sameCfg x cid num den loops manual sync = true ∧
+      ((decision x cid num den loops manual sync start = .keep ∧ x.rs.nextIdx = start) ∨
+       (decision x cid num den loops manual sync start = .advance ∧ x.rs.nextIdx + 1 = start))) ∧
+    (sameCfg x cid num den loops manual sync = false → decision x cid num den loops manual sync start = .replace) := by
+  refine ⟨fun hd => by simp only [ShowKey.step, h, hd], decision_not_replace x cid num den loops manual sync start, ?_⟩
+  intro hc
+  unfold decision
+  split
+  · rfl
+  · simp [hc]
+
+/-! ### show tokens (`Model/ShowToken.lean`: `Show.get_show_steps_with_token`)
+
+A show is the list of its flattened entries (path of dict keys, scalar value), every string a list of segments
+(literal text / token `(name)`, produced by the scanner `scan`); `subst toks` is what a play with `show_tokens = toks` runs. -/
+
+open MpfVerif.ShowToken in
+/-- Total: when every token of the show is supplied, no token is left anywhere — in no value, in no key, at no depth,
+however many tokens a key or value contains. -/
+theorem tokens_total (toks : Toks) (sh : List Entry) (h : ∀ n ∈ tokensOf sh, (lookup toks n).isSome = true) :
+    tokensOf (subst toks sh) = [] := subst_noTok toks sh h
+
+open MpfVerif.ShowToken in
+/-- Capture-free: replacing one token after the other — all tokens through the values, then all tokens through the keys,
+as `_replace_token_values` / `_replace_token_keys` do — is the simultaneous substitution: a replacement value is never
+looked at again by a later token, and the order of the tokens in `show_tokens` does not matter beyond "first entry of a
+name wins". -/
+theorem tokens_capture_free (toks : Toks) (sh : List Entry) : substSeq toks sh = subst toks sh := substSeq_eq toks sh
+
+open MpfVerif.ShowToken in
+/-- Identity without tokens: a show without tokens is played as it is whatever tokens are supplied, a show played
+without tokens is unchanged, and supplied tokens that do not occur in the show change nothing (only the values of the
+tokens that occur matter). -/
+theorem tokens_identity (toks toks' : Toks) (sh : List Entry) :
+    (tokensOf sh = [] → subst toks sh = sh) ∧ subst [] sh = sh ∧
+    ((∀ n ∈ tokensOf sh, lookup toks n = lookup toks' n) → subst toks sh = subst toks' sh) := by
+  refine ⟨fun h => ?_, subst_nil sh, subst_congr toks toks' sh⟩
+  rw [subst_congr toks [] sh (by rw [h]; intro n hn; cases hn), subst_nil]
 
 /-! ### the hypotheses are satisfiable on non-trivial runs (kernel evaluation) -/
 
@@ -316,5 +434,38 @@ open MpfVerif.ShowKey in
 example : ((ShowKey.run {} [.play [8] 1 1 none 1 true false 0 64, .play [8] 1 1 none 1 true false 32 65,
       .play [8] 1 1 none 1 true false 32 66, .play [8] 1 1 none 1 true false 32 67, .req (.stop 70)]).2.map (·.1)) =
     [0, 0, 0, 0, 1, 2, 3] := by decide
+
+-- a repeated play (`playc`, config id 7) of a show that still waits for its sync point 96 never starts it: each repeat is
+-- a new waiting instance holding the deferred stop of the one before; nothing is played before 96, and at 96 the oldest
+-- starts on the grid (`played` etc. are the model's start/stop marks: such an entry has no events; the timers of the newer ones, due at the same instant, then replace it in turn)
+open MpfVerif.ShowKey in
+example : (ShowKey.run {} [.playc 7 [8, 8] 1 1 none 1 true false 32 65, .playc 7 [8, 8] 1 1 none 1 true false 32 70,
+      .playc 7 [8, 8] 1 1 none 2 true false 32 71, .fire 0 96]).2 = [(0, .eff 0 96), (0, .ev .played)] := by decide
+-- keep: the same play again right after the start (the show is at step 1 = start_step): nothing happens, the timer at 72
+-- runs step 2 on schedule; advance: start_step 3 while at step 2 is an advance request (step 3 now, at 75); a play of the
+-- same entry at another step replaces (the old instance is stopped, a new one starts at step 1)
+open MpfVerif.ShowKey in
+example : (ShowKey.run {} [.playc 7 [8, 8, 8] 1 1 none 1 true false 0 64, .playc 7 [8, 8, 8] 1 1 none 1 true false 0 66,
+      .fire 0 72, .playc 7 [8, 8, 8] 1 1 none 3 true false 0 75, .playc 7 [8, 8, 8] 1 1 none 1 true false 0 76]).2 =
+    [(0, .eff 0 64), (0, .ev .played), (0, .eff 1 72), (0, .eff 2 75), (0, .ev .advanced), (0, .clr), (0, .ev .stopped),
+     (1, .eff 0 76), (1, .ev .played)] := by decide
+-- a different speed (after an update request the *current* speed counts) or another config id replaces
+open MpfVerif.ShowKey in
+example : ((ShowKey.run {} [.playc 7 [8, 8] 1 1 none 1 true false 0 64, .req (.speed 2 1 65),
+      .playc 7 [8, 8] 1 1 none 1 true false 0 66, .playc 7 [8, 8] 1 1 none 1 true false 0 67,
+      .playc 7 [8, 8] 2 1 none 1 true false 0 68, .playc 7 [8, 8] 2 1 none 1 true false 0 69,
+      .playc 8 [8, 8] 2 1 none 1 true false 0 70]).2.filter (fun o => o.2 == Obs.ev .stopped)).map (·.1) = [0, 1, 2] := by
+  decide
+
+-- tokens: the scanner, a key with two tokens above a token key (fix 4ec5a75), a time string, a missing token stays
+open MpfVerif.ShowToken in
+example : scan "s(e)v_(nm)_0".toList = some [.lit ['s'], .tok ['e'], .lit "v_".toList, .tok "nm".toList, .lit "_0".toList] := by
+  decide
+open MpfVerif.ShowToken in
+example : (scan "()a)x(".toList).map render = some "()a)x(".toList := by decide
+open MpfVerif.ShowToken in
+example : (subst [("a".toList, "1".toList), ("b".toList, "2".toList)]
+      [{ path := [[.tok "a".toList, .tok "b".toList], [.tok "b".toList]], val := [.lit ['v'], .tok "a".toList, .tok "c".toList] }]).map
+      (fun e => (e.path.map (fun k => String.ofList (render k)), String.ofList (render e.val))) = [(["12", "2"], "v1(c)")] := by decide
 
 end MpfVerif.C17
